@@ -262,7 +262,18 @@ def check_path(P, ctx, rec, op, nbits, nchans, prm, label, budget, which="viol",
     viol = getattr(rec, which)
     if which != "viol" and rec.err:
         # the transform left the modelled subset / raised: never a silent pass for the piggy-backed properties
-        P.inconclusive_(f"{label}: symbolic execution of the transform raised {rec.err}; no trace to check")
+        # ... but the path's witness is still a concrete input: replay it on the real code, which decides
+        # (reproduced -> violation; otherwise the obligation stays undecided -> inconclusive)
+        cz = concretize(ctx, rec, op, nbits, nchans, prm)
+        if cz is not None:
+            params = cz[0]
+            params["check"] = which
+            src = ("import sys, json\nfrom symx.concrete import " + driver + "\n"
+                   f"sys.exit({driver}.main(json.loads({json.dumps(json.dumps(params))})))\n")
+            P.violation(f"{label}-unmodelled-{rec.err}".replace("/", "-").replace(":", "-").replace(" ", "_"),
+                        f"the transform left the modelled subset ({rec.err}); witness {params}", src, model=params)
+        else:
+            P.inconclusive_(f"{label}: symbolic execution of the transform raised {rec.err}; no trace to check")
         Ctx.cur = None
         return 0
     conds = [c for _, c in viol]
